@@ -97,6 +97,7 @@ def examine(ctx, out, plan, case, truth, steps, k, partial, info):
     tdir = os.path.join(out.root, rtgen.tracedir_of(plan.knobs))
     flushed = {tid: flush_log_len(steps, tid, k, partial) for tid in case["tids"]}
     visible = {}
+    first_bad = None
     for tid in case["tids"]:
         sd = rtgen.stream_dir(out.root, plan.knobs, tid)
         jp = os.path.join(sd, "stream.json")
@@ -113,13 +114,13 @@ def examine(ctx, out, plan, case, truth, steps, k, partial, info):
         visible[tid] = (obs, meta)
         fin = isinstance(meta, dict) and isinstance(meta.get("ovni"), dict) and meta["ovni"].get("finished") == 1
         want = truth[tid][:flushed[tid]]
-        if fin and obs != want:
-            return result(False, "finished-before-data-in-place", None,
+        if fin and obs != want and first_bad is None:
+            first_bad = result(False, "finished-before-data-in-place", None,
                           "killed before step %d%s: %s/stream.json says finished=1 but stream.obs next to it has %s bytes, thread had flushed %d"
                           % (k, "" if partial is None else " (+%d bytes of the write)" % partial, os.path.relpath(sd, out.root),
                              "no" if obs is None else len(obs), flushed[tid]), **info)
     if not visible:
-        return None
+        return first_bad
     status, so, se = ctx.run_tool("ovniemu", [tdir])
     v = emu_verdict(status, se)
     if v.startswith("crash"):
@@ -134,7 +135,7 @@ def examine(ctx, out, plan, case, truth, steps, k, partial, info):
                               "while the thread had flushed %d" % (k, "" if partial is None else " (+%d bytes)" % partial, tid,
                                                                    "no" if obs is None else len(obs), flushed[tid]), **info)
         info["probes"]["crash states the emulator accepted (all complete)"] = info["probes"].get("crash states the emulator accepted (all complete)", 0) + 1
-    return None
+    return first_bad
 
 
 def run(case, ctx):
@@ -158,6 +159,7 @@ def run(case, ctx):
         # replay with the very same schedule
         plan.knobs["sched"] = h.sched or None
         hashes = []
+        pending = None
         nontriv = 0
         states = [(k, None) for k in range(N + 1)]
         for s in steps:
@@ -187,9 +189,18 @@ def run(case, ctx):
                 hashes.append(ihash([info["ihash"], k, partial]))
             bad = examine(ctx, out, plan, case, truth, steps, k, partial, info)
             if bad is not None:
-                bad["ihashes_nontrivial"] = hashes
                 bad["det"] = bad["detail"].split("\n--- tool stderr")[0]
+                if bad["vclass"] == "finished-before-data-in-place":
+                    # keep scanning: an *accepted* incomplete stream is the stronger clause
+                    if pending is None:
+                        pending = bad
+                    continue
+                bad["ihashes_nontrivial"] = hashes
                 return bad
+        if pending is not None:
+            pending["ihashes_nontrivial"] = hashes
+            pending["evals"] = info["evals"]
+            return pending
         r = result(True, **info)
         r["ihashes_nontrivial"] = hashes
         r["ihash"] = ""
